@@ -224,6 +224,26 @@ PRELUDES = [
     {"request": {}},
     {},
 ]
+# earlier edits whose validity is debatable (null / non-string names and values in header and trailer lists, request and
+# response): whatever the server answers, a later rejected document must still leave the flow as it was
+LENIENT_PRELUDES = [
+    {"request": {"trailers": [["x", None]]}},
+    {"request": {"trailers": [[None, "x"]]}},
+    {"request": {"trailers": [["ok", "v"], ["x", None]]}, "comment": "c"},
+    {"response": {"trailers": [["x", None]]}},
+    {"request": {"headers": [["x", None]]}},
+    {"response": {"headers": [[None, "x"]]}},
+    {"request": {"trailers": [["x", None]]}, "response": {"trailers": [["y", None]]}},
+    {"request": {"trailers": [["x", 1]]}},
+    {"request": {"trailers": {"ab": 1}}},
+    {"request": {"port": "80", "method": 5}},
+    {"marked": None, "comment": None},
+]
+
+
+def null_in_request_trailers(prelude) -> bool:
+    t = (prelude or {}).get("request", {}).get("trailers") if isinstance((prelude or {}).get("request"), dict) else None
+    return isinstance(t, list) and any(isinstance(it, list) and any(x is None for x in it) for it in t)
 
 
 def gen_doc(r, kind, force_trailers=False):
@@ -368,8 +388,12 @@ def first_failure(flat):
     return None, None
 
 
-def classify(flat, modified):
+def classify(flat, modified, accepted_prelude=None):
     """Mechanism of an error answer that left the flow changed -- from the document and the flow's history only."""
+    if null_in_request_trailers(accepted_prelude):
+        # history: an earlier edit stored a null name/value in the REQUEST trailers and was answered 200 (nothing reads
+        # request trailers when the view is notified); the snapshot of such a flow cannot be restored any more
+        return "rollback-impossible-after-accepted-null-in-request-trailers"
     # All three mechanisms named below were repaired in /repo (known_findings.json: status "fixed"); a recurrence is a
     # regression and must be reported unclassified.
     return None
@@ -402,7 +426,7 @@ async def amain(ctx):
             f, kind, modified = make_flow(r, i, ctx.worker)
             prelude = None
             if kind != "tcp" and r.random() < 0.35:
-                prelude = r.choice(PRELUDES)
+                prelude = r.choice(PRELUDES if r.random() < 0.6 else LENIENT_PRELUDES)
                 if kind == "http-noresp":
                     prelude = {k: v for k, v in prelude.items() if k != "response"}
             doc, flat = gen_doc(r, kind, force_trailers=(prelude is not None and r.random() < 0.8) or r.random() < 0.15)
@@ -414,6 +438,7 @@ async def amain(ctx):
                 if prelude is not None:
                     # history: an earlier edit that must be ACCEPTED (leaves present-but-empty containers and a backup)
                     p_snap = ref.snapshot(f)
+                    p_state = copy.deepcopy(strip(f.get_state()))
                     try:
                         presp = await rig.request("PUT", f"/flows/{f.id}", headers, json.dumps(prelude).encode())
                     except (asyncio.TimeoutError, ValueError, ConnectionError):
@@ -421,14 +446,22 @@ async def amain(ctx):
                         continue
                     ctx.count("prelude_edits")
                     verdict, exp = ref.apply(prelude, p_snap)
-                    if presp.status != 200 or verdict != "ok" or ref.snapshot(f) != exp:
-                        ctx.violation(
-                            "accepted-edit-differs-from-complete-application",
-                            {"flow": kind, "already_modified": modified, "body": json.dumps(prelude), "status": presp.status, "differing_fields": ref.diff(exp, ref.snapshot(f)) if verdict == "ok" else verdict},
-                        )
+                    pwit = {"flow": kind, "already_modified": modified, "body": json.dumps(prelude), "status": presp.status}
+                    if presp.status >= 400:
+                        if verdict == "ok":
+                            ctx.violation("valid-edit-refused", pwit)
+                        if strip(f.get_state()) != p_state or ref.snapshot(f) != p_snap:
+                            ctx.violation("error-answer-but-flow-changed", dict(pwit, changed_fields=ref.diff(p_snap, ref.snapshot(f))[:12]))
+                    elif verdict == "ok":
+                        if ref.snapshot(f) != exp:
+                            ctx.violation("accepted-edit-differs-from-complete-application", dict(pwit, differing_fields=ref.diff(exp, ref.snapshot(f))))
+                    else:
+                        ctx.count("prelude_lenient_accepts")
+                        ctx.seen("lenient_accepts", f"earlier edit {json.dumps(prelude)[:80]}: {exp}")
                 # independent copies: the flow must not be able to alias what we compare against
                 before_state = copy.deepcopy(strip(f.get_state()))
                 before_backup = copy.deepcopy(f._backup)
+                prelude_accepted = prelude is not None and presp.status == 200
                 before_snap = ref.snapshot(f)
                 body_text = dumps(doc)
                 body = body_text.encode("ascii")
@@ -467,7 +500,7 @@ async def amain(ctx):
                     ctx.count("errors_after_applied_items")
                 if after_state != before_state or after_snap != before_snap:
                     changed = ref.diff(before_snap, after_snap) or [k for k in after_state if after_state[k] != before_state.get(k)]
-                    ctx.violation("error-answer-but-flow-changed", dict(wit, changed_fields=changed[:12]), mechanism=classify(flat, modified or prelude is not None))
+                    ctx.violation("error-answer-but-flow-changed", dict(wit, changed_fields=changed[:12]), mechanism=classify(flat, modified or prelude is not None, prelude if prelude_accepted else None))
                 ctx.count("error_leaves_backup_unchanged")
                 if after_backup != before_backup:
                     ctx.violation("error-answer-but-backup-changed", dict(wit, had_backup=before_backup is not None, has_backup=after_backup is not None))
